@@ -64,7 +64,7 @@ type wmode struct {
 }
 
 func (m wmode) String() string {
-	if m.AEAD {
+	if m.AEAD || m.MAC == "" {
 		return m.Cipher
 	}
 	return m.Cipher + "/" + m.MAC
@@ -292,4 +292,14 @@ func drawMode(rt *rapid.T, label string, modes []wmode) wmode {
 	}
 	ms := by[ciphers[int(binary.BigEndian.Uint32(h[0:]))%len(ciphers)]]
 	return ms[int(binary.BigEndian.Uint32(h[4:]))%len(ms)]
+}
+
+// uniform draws an integer in [0, n) with every value equally likely (rapid's
+// own integer generators favour small values and boundaries).
+func uniform(rt *rapid.T, label string, n int) int {
+	v := rapid.Uint64().Draw(rt, label)
+	var b [8]byte
+	binary.BigEndian.PutUint64(b[:], v)
+	h := sha256.Sum256(b[:])
+	return int(binary.BigEndian.Uint64(h[:8]) % uint64(n))
 }
